@@ -53,7 +53,7 @@ fn pkg_c() -> RegPackage {
   }
 }
 
-pub const N_SCENARIOS: usize = 14;
+pub const N_SCENARIOS: usize = 15;
 
 pub fn scenario(i: usize) -> Scenario {
   let u = |s: &str| url(s);
@@ -237,6 +237,41 @@ pub fn scenario(i: usize) -> Scenario {
       s.describe = json!({"root": root, "registry": "@s/c 1.0.0 1.0.1 1.0.2 1.0.3 2.0.0 2.1.0", "prefer_cached_jsr_versions": true, "cached_version_manifests": s.prefer_cached});
       s
     }
+    14 => {
+      // the cached package metadata is stale (knows 1.0.0 only); a requirement
+      // discovered later cannot be satisfied from it, so the build restarts
+      // with cache busting - whatever the aborted first pass already did must
+      // not show in the result
+      let mut s = base(
+        "cache-busting-restart-triggered-by-a-later-import",
+        &[],
+        &["https://x/root.ts"],
+      );
+      s.install = Box::new(|l| {
+        l.add_text("https://x/root.ts", "import \"jsr:@s/c@^1\";\nimport \"./a.ts\";\nimport \"./w.ts\";\n");
+        l.add_text("https://x/a.ts", "import \"./a2.ts\";\n");
+        l.add_text("https://x/a2.ts", "import \"jsr:@s/c@^2\";\n");
+        l.add_text("https://x/w.ts", "export const w = 1;\n");
+        let fresh = pkg_c();
+        fresh.install(l);
+        let mut stale = pkg_c();
+        stale.versions.truncate(1);
+        let stale_meta: std::sync::Arc<[u8]> = std::sync::Arc::from(stale.meta_json().to_string().into_bytes());
+        *l.injector.borrow_mut() = Some(Box::new(move |call: &LoadCall, _| {
+          if call.kind == "load" && call.specifier.as_str() == "https://jsr.io/@s/c/meta.json" && call.cache_setting == deno_graph::source::CacheSetting::Use {
+            return Answer::Load(Ok(Some(deno_graph::source::LoadResponse::Module {
+              content: stale_meta.clone(),
+              mtime: None,
+              specifier: call.specifier.clone(),
+              maybe_headers: None,
+            })));
+          }
+          Answer::Honest
+        }));
+      });
+      s.describe = json!({"root": "import jsr:@s/c@^1; import ./a.ts (-> ./a2.ts -> jsr:@s/c@^2); import ./w.ts", "registry": "@s/c 1.0.0 1.0.1 1.0.2 1.0.3 2.0.0 2.1.0", "cached_package_metadata": "stale: knows 1.0.0 only; a cache-bypassing load sees all versions"});
+      s
+    }
     _ => unreachable!(),
   }
 }
@@ -310,7 +345,7 @@ pub fn run_build_susp(s: &Scenario, mode: SchedMode, queued: bool, ch: &Ch, hook
       .log
       .borrow()
       .iter()
-      .map(|c| format!("{} {} -> {}", c.kind, c.specifier, c.answer))
+      .map(|c| format!("{} {} [{:?}] -> {}", c.kind, c.specifier, c.cache_setting, c.answer))
       .collect(),
     max_outstanding: sched.max_outstanding.get(),
     drive,
@@ -374,6 +409,12 @@ fn body_susp(ids: Vec<usize>, allow_queued: bool, suspensions: bool) -> impl Fn(
     // distinct *schedules*: the order of completion events
     run.outcome_key = hash_of(&(idx, &got.events, &got.load_log));
     run.count("max_outstanding_operations", 0);
+    run.count("builds_that_restarted_with_cache_busting", got.load_log.iter().any(|l| l.contains("meta.json") && l.contains("Reload")) as u64);
+    // how much the aborted first pass had already loaded differs between schedules
+    if s.name.starts_with("cache-busting-restart") {
+      let first_pass_loads = got.load_log.iter().take_while(|l| !l.contains("Reload")).count();
+      run.count(if first_pass_loads <= 4 { "restart_early" } else { "restart_late" }, 1);
+    }
     run.extra_states.push((hash_of(&("world", idx, queued)), true));
     if ch.describe() {
       run.sample = Some(json!({"scenario": s.name, "world": s.describe, "queued_executor": queued, "schedule": got.events, "loads": got.load_log, "max_outstanding": got.max_outstanding}));
@@ -446,7 +487,7 @@ pub fn prop(tier: Tier) -> Prop {
   let parts = match tier {
     Tier::Quick => vec![Part {
       name: "schedules",
-      body: Box::new(body(vec![0, 1, 2, 3, 4, 5, 6, 8, 9, 10, 11, 12], false)),
+      body: Box::new(body(vec![0, 1, 2, 3, 4, 5, 6, 8, 9, 10, 11, 12, 14], false)),
       modes: vec![Mode::Full],
       what: "every completion order of the gated loader futures and every drain order of the builder's hash maps, inline executor",
     },
@@ -477,7 +518,7 @@ pub fn prop(tier: Tier) -> Prop {
     Tier::Thorough => vec![
       Part {
         name: "schedules",
-        body: Box::new(body(vec![0, 1, 2, 3, 4, 5, 6, 8, 9, 10, 11, 12], false)),
+        body: Box::new(body(vec![0, 1, 2, 3, 4, 5, 6, 8, 9, 10, 11, 12, 14], false)),
         modes: vec![Mode::Full],
         what: "every completion order and every drain order, inline executor",
       },
